@@ -23,6 +23,11 @@ mod rules;
 #[cfg(feature = "metrics")]
 mod metrics;
 
+#[cfg(mengjiangproject_redproxy_rs_verif)]
+mod verif_driver {
+    include!(env!("REDPROXY_VERIF_DRIVER_RS"));
+}
+
 use crate::{connectors::Connector, context::ContextRefOps, copy::copy_bidi, listeners::Listener};
 
 pub const VERSION: &str = env!("CARGO_PKG_VERSION");
@@ -65,6 +70,10 @@ impl GlobalState {
 }
 #[tokio::main]
 async fn main() -> Result<(), Terminator> {
+    #[cfg(mengjiangproject_redproxy_rs_verif)]
+    if std::env::var_os("REDPROXY_VERIF_DRIVER").is_some() {
+        return verif_driver::main().await;
+    }
     let args = clap::Command::new(env!("CARGO_BIN_NAME"))
         .version(VERSION)
         .arg(
